@@ -379,30 +379,107 @@ class RecordingAxes:
 PLOT_QUANTITY = {0: "omega", 1: "gamma", 2: "vdgamma"}
 
 
-def make_plot_duck(case, calc):
+# Configurations of the wiring Calculator -> interpolate_modes.  The order of the mode interpolation
+# (elast.settings.mode_gamma.order) and the order of the equation-of-state fit (qha.settings.order) are different
+# settings; except for the packaged default they DIFFER here, with data for which the order matters.
+WIRINGS = OrderedDict([
+    # name:          (interpolator, mode_gamma order, qha order, data kind, degree)
+    ("lsq3-eos3", ("lsq_poly", 3, 3, "poly", 3)),          # packaged defaults; data the fit reproduces exactly
+    ("lsq4-eos3", ("lsq_poly", 4, 3, "poly", 4)),          # exact only with the configured order 4
+    ("lsq2-eos3", ("lsq_poly", 2, 3, "poly", 4)),          # under-fit: order 2 and 3 give visibly different curves
+    ("lsq3-eos4", ("lsq_poly", 3, 4, "poly", 3)),          # both exact to rounding: only the bit-for-bit comparison tells
+    ("spline2-eos3", ("spline", 2, 3, "morse", 0)),
+    ("pchip3-eos4", ("pchip", 3, 4, "morse", 0)),          # node sub-sampling interval depends on the order
+])
+
+
+def full_config(method, order, qha_order):
+    """What Calculator._load leaves in .config: the user's settings over the packaged defaults (settings.yaml)."""
+    return {
+        "qha": {"input": "input01",
+                "settings": {"T_MIN": 0, "DT": 100, "DT_SAMPLE": 100, "NT": 16, "P_MIN": 0, "DELTA_P": 1, "DELTA_P_SAMPLE": 1,
+                             "order": qha_order, "static_only": False, "volume_ratio": 1.2}},
+        "elast": {"input": "elast.dat",
+                  "settings": {"mode_gamma": {"interpolator": method, "order": order},
+                               "symmetry": {"system": "triclinic", "ignore_residuals": False, "ignore_rank": False,
+                                            "drop_atol": 1.0e-8, "residual_atol": 0.1}}},
+        "output": {"pressure_base": ["cij", "bm_VRH", "G_VRH", "v", "vs", "vp"], "volume_base": ["p"]},
+    }
+
+
+def make_plot_duck(case, calc, mg):
+    """A REAL Calculator object that has not gone through __init__ (no files): the public state that _load sets is put
+    in place directly, then the class's own _interpolate_modes builds freq_array / mode_gamma, then the attributes
+    __init__ sets afterwards.  Helper methods / properties of the class stay available to the code under test.
+    Returns also E = interpolate_modes(qha_input, v, CONFIGURED method, CONFIGURED mode_gamma order) and the
+    violations of the wiring clause (what the calculator holds is that interpolant, bit for bit)."""
     Calculator = calc.Calculator
     nq, npm = case["shape"]
     nv = case["nv"]
-    method, order, kind, degree = "lsq_poly", 3, "poly", 3        # shipped default interpolator; data it reproduces exactly
+    wname = case.get("wiring", "lsq3-eos3")
+    method, order, qha_order, kind, degree = WIRINGS[wname]
     inp, laws, vols, v0 = R.build_input(nv, nq, npm, kind, degree, weights=case.get("weights", "unit"))
     v = R.v_grid(case["vkind"], vols, n=case.get("ntv", 201))
-    duck = SimpleNamespace(
-        qha_input=real_input(inp),
-        qha_calculator=SimpleNamespace(v_array=v.copy()),
-        v_array=v.copy(),                 # Calculator.__getattr__ forwards v_array to the qha adapter
-        np=npm, nq=nq, nv=nv,
-        config={"elast": {"settings": {"mode_gamma": {"interpolator": method, "order": order}}}},
-    )
+    qi = real_input(inp)
+    cfg = full_config(method, order, qha_order)
+    obj = Calculator.__new__(Calculator)
+    grid = v.copy()
+    # qha_calculator first: Calculator.__getattr__ forwards unknown names to it
+    obj.qha_calculator = SimpleNamespace(v_array=grid, settings=cfg["qha"]["settings"], qha_input=qi,
+                                         volume_base=SimpleNamespace(v_array=grid))
+    obj.config = cfg
+    obj.qha_input = qi
+    obj.elast_data = SimpleNamespace(nv=nv, volumes=[], lattice_parmeters=[])
+    wviol = []
     try:
         with numpy.errstate(all="ignore"):
-            Calculator._interpolate_modes(duck)          # the real wiring builds freq_array and mode_gamma
+            obj._interpolate_modes()                     # the real wiring builds freq_array and mode_gamma
     except Exception as e:
-        raise HarnessError(f"Calculator._interpolate_modes on the duck failed: {e!r}")
-    return duck, inp, laws, vols, v0, v
+        if isinstance(e, AttributeError) and "SimpleNamespace" in str(e):
+            raise HarnessError(f"file-less Calculator seam no longer matches the code: {e}")
+        return obj, inp, laws, vols, v0, v, None, [V(f"c11:wiring:raises:{type(e).__name__}",
+                                                       f"Calculator._interpolate_modes with mode_gamma = {method} order {order}, qha order {qha_order} raised {e!r}")]
+    obj.nv, obj.np, obj.nq, obj.na = qi.nv, qi.np, qi.nq, qi.na       # as Calculator.__init__ does next
+    try:
+        with numpy.errstate(all="ignore"):
+            E = tuple(numpy.asarray(a) for a in mg.interpolate_modes(real_input(inp), v.copy(), method=method, order=order))
+    except Exception as e:
+        raise HarnessError(f"reference call interpolate_modes({method}, {order}) failed: {e!r}")
+    held = {"freq_array": getattr(obj, "freq_array", None), "mode_gamma": getattr(obj, "mode_gamma", None)}
+    ok = (isinstance(held["freq_array"], numpy.ndarray) and isinstance(held["mode_gamma"], (list, tuple)) and len(held["mode_gamma"]) == 3)
+    if ok:
+        pairs = (("freq_array", held["freq_array"], E[0]), ("mode_gamma[1] (gamma)", held["mode_gamma"][1], E[1]),
+                 ("mode_gamma[0] (V dgamma/dV)", held["mode_gamma"][0], E[2]), ("mode_gamma[2] (gamma^2)", held["mode_gamma"][2], E[1] ** 2))
+        bad = [nm for nm, a, b in pairs if not numpy.array_equal(numpy.asarray(a), b, equal_nan=True)]
+    if not ok:
+        wviol.append(V("c11:wiring:calculator-arrays-missing", "after _interpolate_modes the calculator has no freq_array / 3-element mode_gamma"))
+    elif bad:
+        guess = ""
+        try:
+            with numpy.errstate(all="ignore"):
+                alt = mg.interpolate_modes(real_input(inp), v.copy(), method=method, order=qha_order)
+            if numpy.array_equal(numpy.asarray(held["freq_array"]), numpy.asarray(alt[0]), equal_nan=True):
+                guess = f"; freq_array IS the {method} interpolant of order {qha_order} = qha.settings.order (the equation-of-state order)"
+        except Exception:
+            pass
+        d = float(numpy.nanmax(numpy.abs(numpy.asarray(held["freq_array"], float) / numpy.where(E[0] == 0, 1, E[0]) - numpy.where(E[0] == 0, 0, 1))))
+        wviol.append(V("c11:wiring:not-the-configured-interpolant",
+                       f"configuration mode_gamma = {{interpolator: {method}, order: {order}}}, qha.settings.order = {qha_order}: "
+                       f"{', '.join(bad)} differ from interpolate_modes(qha_input, v_array, {method!r}, {order}) "
+                       f"(omega off by up to {d:.3e} relative){guess}"))
+    if exact_expected({"mo": [method, order], "data": [kind, degree]}):
+        for (q, m) in [(q, m) for q in range(nq) for m in range(npm) if laws[q][m] is not None]:
+            W, G, H = R.triple(laws[q][m], v, v0)
+            if not (numpy.abs(E[0][:, q, m] / W - 1).max() <= RTOL_W and numpy.abs(E[1][:, q, m] - G).max() <= ATOL_G
+                    and numpy.abs(E[2][:, q, m] - H).max() <= ATOL_G):
+                wviol.append(V("c11:wiring:reference-call-inexact", f"{method} order {order} on {kind}{degree} data is not exact in slot ({q},{m})"))
+                break
+    return obj, inp, laws, vols, v0, v, E, wviol
 
 
-def check_plot_calls(calls, n, iq, case, inp, laws, v0, v, viol, tag=""):
-    """`calls` = what ONE plot_modes(ax, n, iq) call sent to the axes."""
+def check_plot_calls(calls, n, iq, case, inp, laws, v0, v, viol, tag="", E=None):
+    """`calls` = what ONE plot_modes(ax, n, iq) call sent to the axes.  E = (omega, gamma, V dgamma/dV) of the
+    CONFIGURED interpolant (reference call); the analytic triple when E is None."""
     nq, npm = case["shape"]
     plots = [c for c in calls if c[0] == "plot"]
     scatters = [c for c in calls if c[0] == "scatter"]
@@ -419,14 +496,17 @@ def check_plot_calls(calls, n, iq, case, inp, laws, v0, v, viol, tag=""):
     v_ang3 = v * R.BOHR_IN_ANGSTROM ** 3
 
     def quantities(q, m):
-        W, G, H = R.triple(laws[q][m], v, v0)
+        if E is not None:
+            W, G, H = (numpy.asarray(E[i][:, q, m], float) for i in range(3))
+        else:
+            W, G, H = R.triple(laws[q][m], v, v0)
         return {"omega": W, "gamma": G, "vdgamma": H, "gamma-squared": G * G}
 
     def matches(y, ref, name):
         if y.shape != ref.shape or not numpy.all(numpy.isfinite(y)):
             return False
         if name == "omega":
-            return bool(numpy.abs(y / ref - 1).max() <= RTOL_W)
+            return bool(numpy.all(ref != 0) and numpy.abs(y / ref - 1).max() <= RTOL_W)
         return bool(numpy.abs(y - ref).max() <= ATOL_G * (1 if name != "gamma-squared" else 10))
 
     want = PLOT_QUANTITY[n]
@@ -448,6 +528,7 @@ def check_plot_calls(calls, n, iq, case, inp, laws, v0, v, viol, tag=""):
             add(f"c11:plot:n{n}-draws-{what}",
                 f"plot_modes(ax, n={n}, iq={iq}), curve of mode {k}: y-data is {what} "
                 f"(y[0]={float(y.ravel()[0])!r}), expected {want} (={float(qs[want][0])!r}); "
+                f"of the configured interpolant ({case.get('wiring', 'lsq3-eos3')}); "
                 f"mode_gamma is built as [V dgamma/dV, gamma, gamma^2] by Calculator._interpolate_modes")
         if x.shape != v.shape or not numpy.abs(x / v_ang3 - 1).max() <= 1e-6:
             add("c11:plot:x-not-volume", f"n={n} iq={iq}: abscissa is not the fine volume grid in cubic angstrom (x[0]={float(x.ravel()[0])!r}, expected {float(v_ang3[0])!r})")
@@ -467,17 +548,18 @@ def check_plot_calls(calls, n, iq, case, inp, laws, v0, v, viol, tag=""):
 
 def run_plot(case):
     n, iq = case["n"], case["iq"]
-    _, calc, pm = fresh_modules()
+    mg, calc, pm = fresh_modules()
     ModePlotter = pm.ModePlotter
-    duck, inp, laws, vols, v0, v = make_plot_duck(case, calc)
-    viol = []
+    duck, inp, laws, vols, v0, v, E, viol = make_plot_duck(case, calc, mg)
+    if E is None:
+        return {"viol": viol, "nontrivial": False, "outcome": viol[0]["sig"]}
     ax = RecordingAxes()
     try:
         ModePlotter(duck).plot_modes(ax, n, iq)
     except Exception as e:
         return {"viol": [V(f"c11:plot:raises:{type(e).__name__}", f"plot_modes(ax, n={n}, iq={iq}) raised {e!r}")],
                 "nontrivial": False, "outcome": "plot-raises"}
-    nplots, nks = check_plot_calls(ax.calls, n, iq, case, inp, laws, v0, v, viol)
+    nplots, nks = check_plot_calls(ax.calls, n, iq, case, inp, laws, v0, v, viol, E=E)
     return {"viol": viol, "nontrivial": nks > 0 and nplots > 0,
             "outcome": f"plot-n{n}-ok" if not viol else viol[0]["sig"], "curves": nplots}
 
@@ -490,11 +572,12 @@ def _snap_duck(duck):
 
 def run_plotseq(case):
     """Mode B: a sequence of plot_modes(n, iq) calls on ONE plotter and ONE axes recorder."""
-    _, calc, pm = fresh_modules()
+    mg, calc, pm = fresh_modules()
     ModePlotter = pm.ModePlotter
-    duck, inp, laws, vols, v0, v = make_plot_duck(case, calc)
+    duck, inp, laws, vols, v0, v, E, viol = make_plot_duck(case, calc, mg)
+    if E is None:
+        return {"viol": viol, "nontrivial": False, "outcome": viol[0]["sig"]}
     before = _snap_duck(duck)
-    viol = []
     ax = RecordingAxes()
     plotter = ModePlotter(duck)
     drawn_total = 0
@@ -509,7 +592,7 @@ def run_plotseq(case):
         new = ax.calls[start:]
         mine = []
         nplots, nks = check_plot_calls(new, n, iq, case, inp, laws, v0, v, mine,
-                                       tag=f"call {pos} of the sequence {case['seq']} on one plotter: ")
+                                       tag=f"call {pos} of the sequence {case['seq']} on one plotter: ", E=E)
         for x_ in mine:                       # same failure classes as the single-call part, marked as history-dependent
             x_["sig"] = x_["sig"].replace("c11:plot:", "c11:plotseq:")
             if x_["sig"] not in [y_["sig"] for y_ in viol]:
@@ -695,7 +778,12 @@ def plot_cases(thorough=False):
                 for n in (0, 1, 2):
                     for iq in range(shape[0]):
                         for wk in PLOT_WEIGHTS:
-                            out.append({"part": "plot", "shape": shape, "nv": nv, "vkind": vkind, "n": n, "iq": iq, "weights": wk})
+                            out.append({"part": "plot", "shape": shape, "nv": nv, "vkind": vkind, "n": n, "iq": iq, "weights": wk,
+                                        "wiring": "lsq3-eos3"})
+                        for wname in WIRINGS:
+                            if wname != "lsq3-eos3":
+                                out.append({"part": "plot", "shape": shape, "nv": nv, "vkind": vkind, "n": n, "iq": iq,
+                                            "weights": "unit", "wiring": wname})
     return out
 
 
@@ -710,7 +798,8 @@ def plotseq_cases(thorough=False):
         ops = [[n, iq] for n in (0, 1, 2) for iq in range(shape[0])]
         for L in lens:
             for seq in itertools.product(ops, repeat=L):
-                out.append({"part": "plotseq", "shape": shape, "nv": 8, "vkind": "extended", "seq": [list(x) for x in seq]})
+                out.append({"part": "plotseq", "shape": shape, "nv": 8, "vkind": "extended", "seq": [list(x) for x in seq],
+                            "wiring": "lsq4-eos3" if L % 2 == 0 else "spline2-eos3"})
     return out
 
 
@@ -731,7 +820,9 @@ def explore(ctx):
                 "; every case runs the real interpolate_modes on an analytic table with a distinct law per (q,m) (branches of one "
                 "q-point cross between sampled volumes) and checks exactness (data in the method's function space), the two integral "
                 "identities tying gamma and V dgamma/dV to the returned omega, zero Gamma-acoustic slots, per-slot law identity and "
-                "finiteness; every (n, iq) of the mode plot on the real Calculator._interpolate_modes wiring. "
+                "finiteness; every (n, iq) of the mode plot on a real file-less Calculator object whose own _interpolate_modes built the arrays, "
+                "for 6 configurations in which mode_gamma.order and qha.settings.order differ (what the calculator holds and what is drawn "
+                "must be the interpolant of the CONFIGURED mode_gamma method and order, bit for bit against a reference call). "
                 "Mode B: every sequence of length 1.." + ("3" if ctx.quick else "4") + " over 8 call descriptions of interpolate_modes inside one "
                 "process (per-call oracle, inputs unchanged, earlier results unchanged after the caller overwrote them, no aliasing) and every "
                 "sequence of plot_modes(n, iq) calls of length 2.." + ("3" if ctx.quick else "4") + " on one plotter and one axes. "
@@ -826,7 +917,7 @@ def explore(ctx):
                               "wscale": SCALE_DIMS["wscale"], "vscale": SCALE_DIMS["vscale"], "acoustic_input": {k: list(R.ACOUSTIC_VARIANTS[k]) for k in SCALE_DIMS["acoustic"]},
                               "admissible_method_order_nV": sum(1 for m, o in MO for nv in dims["nv"] if o < nv),
                               "weights": {k: R.weights_for(k, 3) for k in R.WEIGHT_KINDS}, "plot_weights": list(PLOT_WEIGHTS),
-                              "grid_presentations": list(R.GRID_PRESENTATIONS), "duplicate_columns": list(R.DUP_KINDS),
+                              "wirings": {k: list(w) for k, w in WIRINGS.items()}, "grid_presentations": list(R.GRID_PRESENTATIONS), "duplicate_columns": list(R.DUP_KINDS),
                               "history_ops": list(HIST_OPS), "history_max_len": 3 if ctx.quick else 4}
     ctx.notes["crossing_branch_pairs_per_shape"] = {f"{a}x{b}": R.crossings(R.laws_for("power", 0, a, b), vols8, R.v_ref(vols8))
                                                     for a, b in sdims["shape"]}
